@@ -13,6 +13,7 @@ import (
 	"context"
 	"errors"
 	"fmt"
+	"math/rand"
 	"net"
 	"os"
 	"sync"
@@ -39,6 +40,21 @@ var c41Table = []c41Host{
 	{"okok.test", []string{"ok", "ok"}, []string{"127.0.0.1", "127.0.0.4"}, "ok"},
 	{"rerr.test", []string{"ok"}, []string{"127.0.0.1"}, "error"},
 	{"rhang.test", []string{"ok"}, []string{"127.0.0.1"}, "hang"},
+	// literal addresses, dialled with DisableDNSResolution
+	{"127.0.0.1", []string{"ok"}, []string{"127.0.0.1"}, "direct"},
+	{"127.0.0.2", []string{"hang"}, []string{"127.0.0.2"}, "direct"},
+	{"127.0.0.3", []string{"refuse"}, []string{"127.0.0.3"}, "direct"},
+}
+
+const c41FirstDirect = 9 // index of the first literal-address entry of c41Table
+
+// c41Opts: the TCPDialer options of one execution
+type c41Opts struct {
+	conc      int
+	direct    bool          // DisableDNSResolution
+	cache     time.Duration // DNSCacheDuration (0: default)
+	localAddr bool          // LocalAddr 127.0.0.1
+	nilRes    bool          // unused with the fake network: the Resolver is always the fake one
 }
 
 type c41Resolver struct{}
@@ -186,6 +202,8 @@ type c41Rec struct {
 	lastTry map[int]string
 	evs     []vfRec
 	tainted string
+	jit     *rand.Rand
+	jmu     sync.Mutex
 }
 
 func (r *c41Rec) pos(g int, addr string) int {
@@ -207,6 +225,14 @@ func (r *c41Rec) hook(ev string, o1, o2 any, a, b int) {
 		return
 	}
 	gid := vfGid()
+	if r.jit != nil && (ev == "td.addrs" || ev == "td.dial.end" || ev == "td.slot.rel") {
+		// gate between picking the start address and the attempts, and between a failed
+		// attempt and the next one: other dials to the same host get in between
+		r.jmu.Lock()
+		d := time.Duration(r.jit.Intn(2500)) * time.Microsecond
+		r.jmu.Unlock()
+		time.Sleep(d)
+	}
 	r.mu.Lock()
 	defer r.mu.Unlock()
 	g := r.gmap[gid]
@@ -262,9 +288,13 @@ type c41Result struct {
 // slack.  The directed slot-wait scenario uses waits well above it.
 const c41Slack = 1200 * time.Millisecond
 
-func c41RunOne(t *testing.T, nw *c41Net, conc int, dials []c41Dial, trNo int) (evs []vfRec, key, detail string, infra string) {
-	d := &TCPDialer{Concurrency: conc, Resolver: c41Resolver{}}
-	rec := &c41Rec{d: d, gmap: map[uint64]int{}, hostOf: map[int]int{}, lastTry: map[int]string{}}
+func c41RunOne(t *testing.T, nw *c41Net, o c41Opts, jit *rand.Rand, dials []c41Dial, trNo int) (evs []vfRec, key, detail string, infra string) {
+	conc := o.conc
+	d := &TCPDialer{Concurrency: conc, Resolver: c41Resolver{}, DisableDNSResolution: o.direct, DNSCacheDuration: o.cache}
+	if o.localAddr {
+		d.LocalAddr = &net.TCPAddr{IP: net.IPv4(127, 0, 0, 1)}
+	}
+	rec := &c41Rec{d: d, gmap: map[uint64]int{}, hostOf: map[int]int{}, lastTry: map[int]string{}, jit: jit}
 	hosts := []int{1, 1, 1, 1, 1} // dial ids 1..5; unused ids still need a host
 	table := make([]vfRec, len(c41Table))
 	for i, h := range c41Table {
@@ -395,17 +425,23 @@ func TestVerifC41Dialer(t *testing.T) {
 		name := fmt.Sprintf("td_trace_%d.ndjson", conc)
 		tw := vfNewTrace(t, name)
 		for i := 1; i <= ntr; i++ {
+			// the dialer's options are a dimension of the execution
+			o := c41Opts{conc: conc, direct: i%4 == 3, localAddr: rng.Intn(3) == 0,
+				cache: []time.Duration{0, 0, time.Nanosecond, time.Hour}[rng.Intn(4)]}
+			pickHost := func() int {
+				if o.direct {
+					return c41FirstDirect + rng.Intn(len(c41Table)-c41FirstDirect)
+				}
+				return rng.Intn(c41FirstDirect)
+			}
 			nd := 2 + rng.Intn(4)
 			dials := make([]c41Dial, nd)
 			for k := range dials {
-				dials[k] = c41Dial{host: rng.Intn(len(c41Table)), timeout: timeouts[rng.Intn(len(timeouts))],
+				dials[k] = c41Dial{host: pickHost(), timeout: timeouts[rng.Intn(len(timeouts))],
 					delay: time.Duration(rng.Intn(60)) * time.Millisecond, dual: rng.Intn(4) == 0}
 			}
-			if i%3 == 1 { // directed: a hanging dial holds a slot while others queue for it
-				dials[0] = c41Dial{host: 4, timeout: 400 * time.Millisecond}
-				dials[1] = c41Dial{host: 0, timeout: 150 * time.Millisecond, delay: 30 * time.Millisecond}
-			}
-			if i == 2 && conc > 0 {
+			switch {
+			case i == 2 && conc > 0:
 				// directed: every slot is held by a hanging dial for 2.5 s; one more dial queues for
 				// a slot, gets it before its own deadline (3.5 s) and then hangs as well: the time
 				// spent queueing counts against ITS deadline
@@ -414,8 +450,28 @@ func TestVerifC41Dialer(t *testing.T) {
 					dials = append(dials, c41Dial{host: 4, timeout: 2500 * time.Millisecond})
 				}
 				dials = append(dials, c41Dial{host: 4, timeout: 3500 * time.Millisecond, delay: 100 * time.Millisecond})
+			case o.direct && conc > 0 && i%8 == 3:
+				// directed, literal addresses: hanging dials hold every slot, one more dial to an
+				// accepting endpoint cannot get a slot before its deadline
+				dials = dials[:0]
+				for k := 0; k < conc; k++ {
+					dials = append(dials, c41Dial{host: c41FirstDirect + 1, timeout: 700 * time.Millisecond})
+				}
+				dials = append(dials, c41Dial{host: c41FirstDirect, timeout: 200 * time.Millisecond, delay: 80 * time.Millisecond})
+			case !o.direct && i%3 == 0:
+				// directed: concurrent dials to ONE host with several addresses (refusing and
+				// accepting ones): each dial walks the address list from its own start address
+				h := []int{1, 3, 6, 1, 2, 5}[rng.Intn(6)]
+				for k := range dials {
+					dials[k] = c41Dial{host: h, timeout: 400 * time.Millisecond, delay: time.Duration(rng.Intn(3000)) * time.Microsecond}
+				}
+			case !o.direct && i%3 == 1:
+				// directed: a hanging dial holds a slot while others queue for it
+				dials[0] = c41Dial{host: 4, timeout: 400 * time.Millisecond}
+				dials[1] = c41Dial{host: 0, timeout: 150 * time.Millisecond, delay: 30 * time.Millisecond}
 			}
-			evs, key, detail, infra := c41RunOne(t, nw, conc, dials, i)
+			jit := rand.New(rand.NewSource(rng.Int63()))
+			evs, key, detail, infra := c41RunOne(t, nw, o, jit, dials, i)
 			if infra != "" {
 				vfInfra("C41: " + infra)
 				tw.Close()
@@ -424,7 +480,7 @@ func TestVerifC41Dialer(t *testing.T) {
 			}
 			evals++
 			if key != "" {
-				vfViol("direct:"+key, detail, vfRec{"trace": i, "conc": conc, "dials": fmt.Sprintf("%+v", dials)})
+				vfViol("direct:"+key, detail, vfRec{"trace": i, "opts": fmt.Sprintf("%+v", o), "dials": fmt.Sprintf("%+v", dials)})
 				continue
 			}
 			for _, e := range evs {
@@ -432,7 +488,7 @@ func TestVerifC41Dialer(t *testing.T) {
 			}
 			events += len(evs)
 			if i == 1 && conc == 1 {
-				vfSample(vfRec{"conc": conc, "dials": fmt.Sprintf("%+v", dials), "events": len(evs)})
+				vfSample(vfRec{"opts": fmt.Sprintf("%+v", o), "dials": fmt.Sprintf("%+v", dials), "events": len(evs)})
 			}
 		}
 		tw.Close()
